@@ -7,3 +7,6 @@ import SpgProofs.Properties.C17
 #print axioms Spg.C17.parseClasses_spec
 #print axioms Spg.C17.chars_defaults
 #print axioms Spg.C17.words_defaults
+#print axioms Spg.C17.cli_characters_spec
+#print axioms Spg.C17.cli_words_spec
+#print axioms Spg.C17.cli_flag_last_wins
